@@ -71,6 +71,7 @@ func (t *table) processWALInserts() {
 	t.db.Go(func(stop <-chan interface{}) {
 		t.processInserts(in, stop)
 	})
+	verifPoint(t.db, t.Name, "wal-processing-started", nil)
 
 	for {
 		data, err := t.wal.Read()
